@@ -4,6 +4,7 @@ package trace
 
 import (
 	"bufio"
+	"bytes"
 	"encoding/json"
 	"fmt"
 	"os"
@@ -86,6 +87,9 @@ func (t *Writer) Emit(e Ev) {
 	b, err := json.Marshal(e)
 	if err != nil {
 		panic("verif/trace: " + err.Error())
+	}
+	if bytes.Contains(b, []byte(":null")) || bytes.Contains(b, []byte("[null")) || bytes.Contains(b, []byte(",null")) {
+		panic("verif/trace: null in event (nil slice or map?): " + string(b))
 	}
 	t.mu.Lock()
 	t.w.Write(b)
